@@ -2,21 +2,20 @@ import Clem.Proofs.T4Perm
 import Mathlib.Algebra.Order.Field.Rat
 
 /-!
-# C03 — independence from the listing order, and the negation witnesses
+# C03 — independence from the listing order (full strength)
 
-Full statement (property text): *"the result … depends neither on the order in which deltas are
-listed …"*, i.e. `∀ inp ds', inp.deltas ~ ds' → t4 … {inp with deltas := ds'} = t4 … inp`.
+Property text: *"the result … depends neither on the order in which deltas are listed …"*, i.e.
+`∀ inp ds', inp.deltas ~ ds' → t4 … {inp with deltas := ds'} = t4 … inp`.
 
-With the fix `proposed_fixes/C03_combine_sum_canonical_order.diff` (`_combine_by_ckey` sums each
-key's contributions in ascending order of value) this is proved for EVERY number carrier whose `≤` is
-a total order — no associativity, no exact arithmetic — so it covers the `Float` instance the driver
-runs on NaN-free inputs (up to the sign of zero, which `sorted` cannot see; the harness checks the
-real code bit-for-bit on permutations, including `[1e16, 1.0, -1e16]`, a regression case in
-`corpus/C03/t4__float_sum.json`).
-
-One hypothesis remains and is necessary: injective string keys.  Ids/attrs containing `:` can make
-two distinct targets share `f"{kind}:{id}:{attr}"`; then the first listed wins
-(`C03_perm_fails_on_collision`, known finding `C03:t4:order.ckey-collision`).
+Proved below for EVERY number carrier whose `≤` is a total order (`C03_perm_invariant`) — no
+associativity, no exact arithmetic, and no hypothesis on the target names any more:
+* `proposed_fixes/C03_combine_sum_canonical_order.diff` (merged as 0128747): contributions to a key
+  are summed in ascending order of value;
+* `proposed_fixes/C03_t4_order_ckey-collision.diff`: `_canonical_key` is the tuple
+  `(f"{kind}:{id}:{attr}", kind, id, attr)`, injective in the target (`ckey_inj`), so the former
+  hypothesis `CkeyInjective` holds of every list (`ckeyInjective_all`).
+The old witnesses stay as regression statements: the colliding pair is now kept apart in both
+listing orders, and the legacy left-to-right merge is shown order-dependent on a non-associative carrier.
 -/
 set_option linter.unusedSectionVars false
 
@@ -26,9 +25,9 @@ open Clem.Py
 section AnyCarrier
 variable {α : Type} [Num α]
 
-/-- Permutation invariance of the whole `T4Result`, for any totally ordered carrier — partial only
-in `CkeyInjective` (full statement above; negation witness below). -/
-theorem C03_perm_invariant_partial (ho : LeTotalOrder α) (sqrt : α → α) (thr : α) (inp : Input α)
+/-- Permutation invariance of the whole `T4Result` under hypothesis `CkeyInjective` (kept because
+`C03_perm_invariant` is derived from it; the hypothesis is now always true). -/
+theorem C03_perm_invariant_of_injective (ho : LeTotalOrder α) (sqrt : α → α) (thr : α) (inp : Input α)
     (ds' : List (Delta α)) (hp : inp.deltas.Perm ds') (hinj : CkeyInjective inp.deltas) :
     t4 sqrt thr { inp with deltas := ds' } = t4 sqrt thr inp := by
   have hA : afterCd { inp with deltas := ds' } = afterCd inp := by
@@ -40,20 +39,31 @@ theorem C03_perm_invariant_partial (ho : LeTotalOrder α) (sqrt : α → α) (th
   simp only [t4, hA, hC, hS, hK, hP, hp.length_eq]
   rfl
 
+/-- **The result does not depend on the order in which the deltas are listed** — every input, every
+totally ordered carrier (so: the `Float` instance on NaN-free values, up to the sign of zero). -/
+theorem C03_perm_invariant (ho : LeTotalOrder α) (sqrt : α → α) (thr : α) (inp : Input α)
+    (ds' : List (Delta α)) (hp : inp.deltas.Perm ds') :
+    t4 sqrt thr { inp with deltas := ds' } = t4 sqrt thr inp :=
+  C03_perm_invariant_of_injective ho sqrt thr inp ds' hp (ckeyInjective_all _)
+
 /-- … in particular `_combine_by_ckey` itself. -/
-theorem C03_combine_perm_invariant_partial (ho : LeTotalOrder α) {ds ds' : List (Delta α)}
-    (hp : ds.Perm ds') (hinj : CkeyInjective ds) : combine ds = combine ds' :=
-  combine_perm_invariant ho hp hinj
+theorem C03_combine_perm_invariant (ho : LeTotalOrder α) {ds ds' : List (Delta α)}
+    (hp : ds.Perm ds') : combine ds = combine ds' :=
+  combine_perm_invariant ho hp (ckeyInjective_all _)
+
+/-- distinct targets never share a canonical key -/
+theorem C03_ckey_injective (a b : Delta α) (h : ckey a = ckey b) :
+    a.kind = b.kind ∧ a.id = b.id ∧ a.attr = b.attr := ckey_inj h
 
 end AnyCarrier
 
-/-- at an ordered field the order hypothesis is free: only `CkeyInjective` is left -/
+/-- at an ordered field the order hypothesis is free: no hypothesis is left -/
 theorem C03_perm_invariant_field {α : Type} [Field α] [LinearOrder α] [IsStrictOrderedRing α]
-    (sqrt : α → α) (thr : α) (inp : Input α) (ds' : List (Delta α)) (hp : inp.deltas.Perm ds')
-    (hinj : CkeyInjective inp.deltas) : t4 sqrt thr { inp with deltas := ds' } = t4 sqrt thr inp :=
-  C03_perm_invariant_partial leTotalOrder_field sqrt thr inp ds' hp hinj
+    (sqrt : α → α) (thr : α) (inp : Input α) (ds' : List (Delta α)) (hp : inp.deltas.Perm ds') :
+    t4 sqrt thr { inp with deltas := ds' } = t4 sqrt thr inp :=
+  C03_perm_invariant leTotalOrder_field sqrt thr inp ds' hp
 
-/-! ### negation witnesses (carrier `ℚ`, `decide +kernel` on the model's own definitions) -/
+/-! ### regression witnesses (carrier `ℚ`, `decide +kernel` on the model's own definitions) -/
 
 def wInput (ds : List (Delta ℚ)) (ops : List Str) : Input ℚ :=
   { deltas := ds, ops := ops, cooldowns := [([69], 2)], last := [([69], some 4)], turns := [some 5],
@@ -64,23 +74,14 @@ def wA : Delta ℚ := ⟨[110, 111, 100, 101], [110, 58, 97], [98, 58, 119], 1/1
 /-- node `n:a:b`, attr `w` — a different target with the same `node:n:a:b:w` string key -/
 def wB : Delta ℚ := ⟨[110, 111, 100, 101], [110, 58, 97, 58, 98], [119], 1/10, none, none⟩
 
-/-- **The unrestricted statement is false**: two distinct targets whose string keys collide are
-merged, and which of them is approved depends on the listing order. -/
-theorem C03_perm_fails_on_collision :
-    [wA, wB].Perm [wB, wA] ∧ ckey wA = ckey wB ∧
-    (t4 id (999999/1000000) (wInput [wA, wB] [])).approved.map (·.id) = [[110, 58, 97]] ∧
-    (t4 id (999999/1000000) (wInput [wB, wA] [])).approved.map (·.id) = [[110, 58, 97, 58, 98]] ∧
-    (t4 id (999999/1000000) (wInput [wA, wB] [])).approved.length = 1 :=
-  ⟨List.Perm.swap _ _ _, by decide, by decide +kernel, by decide +kernel, by decide +kernel⟩
-
-theorem C03_perm_unrestricted_false :
-    ¬ ∀ (inp : Input ℚ) (ds' : List (Delta ℚ)), inp.deltas.Perm ds' →
-        (t4 id (999999/1000000) { inp with deltas := ds' }).approved.map (·.id)
-          = (t4 id (999999/1000000) inp).approved.map (·.id) := by
-  intro h
-  have := h (wInput [wA, wB] []) [wB, wA] (List.Perm.swap _ _ _)
-  revert this
-  decide +kernel
+/-- Regression witness for `C03:t4:order.ckey-collision`: the two targets whose display strings
+coincide (`node:n:a:b:w`) have different keys, are BOTH approved, and in the same canonical order
+whichever is listed first.  (Before the fix they were merged and the first listed one won.) -/
+theorem C03_collision_targets_kept_apart :
+    skey wA = skey wB ∧ ckey wA ≠ ckey wB ∧
+    (t4 id (999999/1000000) (wInput [wA, wB] [])).approved.map (·.id) = [[110, 58, 97], [110, 58, 97, 58, 98]] ∧
+    (t4 id (999999/1000000) (wInput [wB, wA] [])).approved.map (·.id) = [[110, 58, 97], [110, 58, 97, 58, 98]] :=
+  ⟨by decide, by decide, by decide +kernel, by decide +kernel⟩
 
 /-- A carrier whose addition saturates at `±10` — not associative, like IEEE absorption
 (`1e16 + 1.0 = 1e16`).  Only used for the witness below. -/
@@ -117,12 +118,9 @@ theorem C03_legacy_merge_needed_exact_arithmetic :
     (@combine Int satNum [wS 10, wS (-10), wS 1]).map (·.delta) = [1] :=
   ⟨(List.Perm.swap _ _ _).cons _, by decide, by decide, by decide, by decide⟩
 
-/-- non-vacuity of `C03_perm_invariant_partial` at a NON-associative carrier -/
+/-- non-vacuity of `C03_combine_perm_invariant` at a NON-associative carrier -/
 example : @combine Int satNum [wS 10, wS 1, wS (-10)] = @combine Int satNum [wS 10, wS (-10), wS 1] :=
-  @C03_combine_perm_invariant_partial Int satNum satNum_leTotalOrder _ _ ((List.Perm.swap _ _ _).cons _)
-    (by intro a ha b hb _
-        simp at ha hb
-        rcases ha with rfl | rfl | rfl <;> rcases hb with rfl | rfl | rfl <;> exact ⟨rfl, rfl, rfl⟩)
+  @C03_combine_perm_invariant Int satNum satNum_leTotalOrder _ _ ((List.Perm.swap _ _ _).cons _)
 
 /-- Observation (DESIGN §4; consistent with the property's own pipeline order, so NOT alarmed):
 merging happens before the cooldown filter, and the merged delta records the *minimum* `op_idx`.
@@ -137,14 +135,8 @@ theorem C03_strong_origin_fails :
     (t4 id (999999/1000000) inp).approved.map (fun d => (d.delta, d.opIdx)) = [(3/10, some 0)] := by
   decide +kernel
 
-/-- non-vacuity of the partial theorem: its hypotheses hold for a list with real duplicates -/
-example : CkeyInjective [wA, wA] ∧ t4 id (999999/1000000) (wInput [wA, wA] []) =
-    t4 id (999999/1000000) { wInput [wA, wA] [] with deltas := [wA, wA] } := by
-  have hinj : CkeyInjective [wA, wA] := by
-    intro a ha b hb _
-    simp at ha hb
-    subst ha; subst hb
-    exact ⟨rfl, rfl, rfl⟩
-  exact ⟨hinj, (C03_perm_invariant_field id _ (wInput [wA, wA] []) [wA, wA] (List.Perm.refl _) hinj).symm⟩
+/-- non-vacuity: the full theorem applied to the colliding pair -/
+example : t4 id (999999/1000000) (wInput [wB, wA] []) = t4 id (999999/1000000) (wInput [wA, wB] []) :=
+  C03_perm_invariant_field id _ (wInput [wA, wB] []) [wB, wA] (List.Perm.swap _ _ _)
 
 end Clem.T4
